@@ -85,16 +85,190 @@ theorem search_err (S : List MatrixData) (k : Nat) (hk : ∀ m ∈ S, m.key ≠ 
     exact hk m hm hmk
   rw [if_neg hc, filter_map_key_length]
 
-/-- what the model's bracket search selects, as a relation between the unsorted group, the query key and the result -/
-inductive Selected (g : List MatrixData) (k : Nat) : Type where
-  /-- a matrix with exactly the query's key -/
-  | exact (m : MatrixData) (hm : m ∈ g) (hk : m.key = k)
-  /-- every key is above: the matrix with the least key -/
-  | first (m : MatrixData) (hm : m ∈ g) (hall : ∀ x ∈ g, k < x.key) (hmin : ∀ x ∈ g, m.key ≤ x.key)
-  /-- every key is below: the matrix with the greatest key -/
-  | last (m : MatrixData) (hm : m ∈ g) (hall : ∀ x ∈ g, x.key < k) (hmax : ∀ x ∈ g, x.key ≤ m.key)
-  /-- the greatest key below and the least key above -/
-  | between (l r : MatrixData) (hl : l ∈ g) (hr : r ∈ g) (hlk : l.key < k) (hkr : k < r.key)
-      (hmax : ∀ x ∈ g, x.key < k → x.key ≤ l.key) (hmin : ∀ x ∈ g, k < x.key → r.key ≤ x.key)
+/-! ### unfolding the `match` of `interpolate_duration` / `interpolate_distance` -/
+
+theorem interpDurationRaw_ok (S : List MatrixData) (idx : Nat) (t : Rat) (i : Nat)
+    (h : searchKeys (S.map MatrixData.key) (keyOfRat t) = .ok i) :
+    interpDurationRaw S idx t = (S[i]?).bind (durAt · idx) := by
+  unfold interpDurationRaw; rw [h]
+
+theorem interpDistanceRaw_ok (S : List MatrixData) (idx : Nat) (t : Rat) (i : Nat)
+    (h : searchKeys (S.map MatrixData.key) (keyOfRat t) = .ok i) :
+    interpDistanceRaw S idx t = (S[i]?).bind (distAt · idx) := by
+  unfold interpDistanceRaw; rw [h]
+
+theorem interpDurationRaw_err_zero (S : List MatrixData) (idx : Nat) (t : Rat)
+    (h : searchKeys (S.map MatrixData.key) (keyOfRat t) = .error 0) :
+    interpDurationRaw S idx t = S.head?.bind (durAt · idx) := by
+  unfold interpDurationRaw; rw [h]; rfl
+
+theorem interpDistanceRaw_err_zero (S : List MatrixData) (idx : Nat) (t : Rat)
+    (h : searchKeys (S.map MatrixData.key) (keyOfRat t) = .error 0) :
+    interpDistanceRaw S idx t = S.head?.bind (distAt · idx) := by
+  unfold interpDistanceRaw; rw [h]; rfl
+
+theorem interpDurationRaw_err_len (S : List MatrixData) (idx : Nat) (t : Rat) (hS : S ≠ [])
+    (h : searchKeys (S.map MatrixData.key) (keyOfRat t) = .error S.length) :
+    interpDurationRaw S idx t = S.getLast?.bind (durAt · idx) := by
+  unfold interpDurationRaw; rw [h]
+  have : S.length ≠ 0 := fun e => hS (List.length_eq_zero_iff.mp e)
+  cases hl : S.length with
+  | zero => exact absurd hl this
+  | succ n => simp
+
+theorem interpDistanceRaw_err_len (S : List MatrixData) (idx : Nat) (t : Rat) (hS : S ≠ [])
+    (h : searchKeys (S.map MatrixData.key) (keyOfRat t) = .error S.length) :
+    interpDistanceRaw S idx t = S.getLast?.bind (distAt · idx) := by
+  unfold interpDistanceRaw; rw [h]
+  have : S.length ≠ 0 := fun e => hS (List.length_eq_zero_iff.mp e)
+  cases hl : S.length with
+  | zero => exact absurd hl this
+  | succ n => simp
+
+theorem interpDurationRaw_err_mid (S : List MatrixData) (idx : Nat) (t : Rat) (i : Nat) (h0 : i ≠ 0)
+    (hlen : i ≠ S.length) (l r : MatrixData) (hl : S[i - 1]? = some l) (hr : S[i]? = some r)
+    (h : searchKeys (S.map MatrixData.key) (keyOfRat t) = .error i) :
+    interpDurationRaw S idx t =
+      match durAt l idx, durAt r idx with
+      | some lv, some rv =>
+        some (lv + (t - ((l.timestamp.getD 0 : Int) : Rat)) /
+          (((r.timestamp.getD 0 : Int) : Rat) - ((l.timestamp.getD 0 : Int) : Rat)) * (rv - lv))
+      | _, _ => none := by
+  unfold interpDurationRaw; rw [h]
+  cases i with
+  | zero => exact absurd rfl h0
+  | succ n =>
+    have : ((n + 1) == S.length) = false := by simpa using hlen
+    simp only [this, Bool.false_eq_true, if_false]
+    simp only [Nat.add_sub_cancel] at hl ⊢
+    rw [hl, hr]; rfl
+
+theorem interpDistanceRaw_err_mid (S : List MatrixData) (idx : Nat) (t : Rat) (i : Nat) (h0 : i ≠ 0)
+    (hlen : i ≠ S.length) (l : MatrixData) (hl : S[i - 1]? = some l)
+    (h : searchKeys (S.map MatrixData.key) (keyOfRat t) = .error i) :
+    interpDistanceRaw S idx t = distAt l idx := by
+  unfold interpDistanceRaw; rw [h]
+  cases i with
+  | zero => exact absurd rfl h0
+  | succ n =>
+    have : ((n + 1) == S.length) = false := by simpa using hlen
+    simp only [this, Bool.false_eq_true, if_false]
+    simp only [Nat.add_sub_cancel] at hl ⊢
+    rw [hl]; rfl
+
+/-! ### what the sorted search selects, stated on the unsorted group -/
+
+section selection
+variable (g : List MatrixData) (hd : DistinctKeys g)
+include hd
+
+theorem sorted_facts :
+    (sortByKey g).Pairwise (fun a b => a.key ≤ b.key) ∧
+    (∀ a ∈ sortByKey g, ∀ b ∈ sortByKey g, a.key = b.key → a = b) :=
+  ⟨sortByKey_sorted g, fun a ha b hb hk => hd.eq_of_key ((mem_sortByKey g a).mp ha) ((mem_sortByKey g b).mp hb) hk⟩
+
+/-- exact hit -/
+theorem select_exact (t : Rat) (m : MatrixData) (hm : m ∈ g) (hk : m.key = keyOfRat t) (idx : Nat) :
+    interpDurationRaw (sortByKey g) idx t = durAt m idx ∧ interpDistanceRaw (sortByKey g) idx t = distAt m idx := by
+  obtain ⟨hs, hu⟩ := sorted_facts g hd
+  obtain ⟨i, hi, hget⟩ := search_ok (sortByKey g) hs hu (keyOfRat t) m ((mem_sortByKey g m).mpr hm) hk
+  rw [interpDurationRaw_ok _ _ _ i hi, interpDistanceRaw_ok _ _ _ i hi, hget]
+  exact ⟨rfl, rfl⟩
+
+/-- before the first matrix -/
+theorem select_first (t : Rat) (f : MatrixData) (hf : f ∈ g) (hall : ∀ x ∈ g, keyOfRat t < x.key)
+    (hmin : ∀ x ∈ g, f.key ≤ x.key) (idx : Nat) :
+    interpDurationRaw (sortByKey g) idx t = durAt f idx ∧ interpDistanceRaw (sortByKey g) idx t = distAt f idx := by
+  obtain ⟨hs, hu⟩ := sorted_facts g hd
+  have hne : ∀ m ∈ sortByKey g, m.key ≠ keyOfRat t := fun m hm => by
+    have := hall m ((mem_sortByKey g m).mp hm); omega
+  have herr := search_err (sortByKey g) (keyOfRat t) hne
+  have hb := sorted_bracket MatrixData.key (sortByKey g) hs (keyOfRat t) _ rfl
+  have h0 : ((sortByKey g).filter (fun x => decide (x.key < keyOfRat t))).length = 0 :=
+    hb.2.2.2.mpr (fun x hx => by have := hall x ((mem_sortByKey g x).mp hx); omega)
+  rw [h0] at herr
+  rw [interpDurationRaw_err_zero _ _ _ herr, interpDistanceRaw_err_zero _ _ _ herr]
+  have hfS : f ∈ sortByKey g := (mem_sortByKey g f).mpr hf
+  obtain ⟨h, hh⟩ : ∃ h, (sortByKey g).head? = some h := by
+    cases hc : (sortByKey g).head? with
+    | none => rw [List.head?_eq_none_iff] at hc; rw [hc] at hfS; simp at hfS
+    | some h => exact ⟨h, rfl⟩
+  have hhS : h ∈ sortByKey g := List.mem_of_head? hh
+  have h1 := pairwise_head MatrixData.key _ hs h hh f hfS
+  have h2 := hmin h ((mem_sortByKey g h).mp hhS)
+  have : h = f := hu h hhS f hfS (by omega)
+  rw [hh, this]
+  exact ⟨rfl, rfl⟩
+
+/-- after the last matrix -/
+theorem select_last (t : Rat) (z : MatrixData) (hz : z ∈ g) (hall : ∀ x ∈ g, x.key < keyOfRat t)
+    (hmax : ∀ x ∈ g, x.key ≤ z.key) (idx : Nat) :
+    interpDurationRaw (sortByKey g) idx t = durAt z idx ∧ interpDistanceRaw (sortByKey g) idx t = distAt z idx := by
+  obtain ⟨hs, hu⟩ := sorted_facts g hd
+  have hne : ∀ m ∈ sortByKey g, m.key ≠ keyOfRat t := fun m hm => by
+    have := hall m ((mem_sortByKey g m).mp hm); omega
+  have herr := search_err (sortByKey g) (keyOfRat t) hne
+  have hb := sorted_bracket MatrixData.key (sortByKey g) hs (keyOfRat t) _ rfl
+  have hlen : ((sortByKey g).filter (fun x => decide (x.key < keyOfRat t))).length = (sortByKey g).length :=
+    hb.2.2.1.mpr (fun x hx => hall x ((mem_sortByKey g x).mp hx))
+  rw [hlen] at herr
+  have hzS : z ∈ sortByKey g := (mem_sortByKey g z).mpr hz
+  have hSne : sortByKey g ≠ [] := fun e => by rw [e] at hzS; simp at hzS
+  rw [interpDurationRaw_err_len _ _ _ hSne herr, interpDistanceRaw_err_len _ _ _ hSne herr]
+  obtain ⟨h, hh⟩ : ∃ h, (sortByKey g).getLast? = some h := by
+    cases hc : (sortByKey g).getLast? with
+    | none => exact absurd (List.getLast?_eq_none_iff.mp hc) hSne
+    | some h => exact ⟨h, rfl⟩
+  have hhS : h ∈ sortByKey g := List.mem_of_getLast? hh
+  have h1 := pairwise_getLast MatrixData.key _ hs h hh z hzS
+  have h2 := hmax h ((mem_sortByKey g h).mp hhS)
+  have : h = z := hu h hhS z hzS (by omega)
+  rw [hh, this]
+  exact ⟨rfl, rfl⟩
+
+/-- strictly between two matrices: `l` has the greatest key below the query's, `r` the least above -/
+theorem select_between (t : Rat) (l r : MatrixData) (hl : l ∈ g) (hr : r ∈ g)
+    (hlk : l.key < keyOfRat t) (hkr : keyOfRat t < r.key)
+    (hmax : ∀ x ∈ g, x.key < keyOfRat t → x.key ≤ l.key) (hmin : ∀ x ∈ g, keyOfRat t < x.key → r.key ≤ x.key)
+    (hnone : ∀ x ∈ g, x.key ≠ keyOfRat t) (idx : Nat) :
+    interpDurationRaw (sortByKey g) idx t =
+      (match durAt l idx, durAt r idx with
+       | some lv, some rv =>
+         some (lv + (t - ((l.timestamp.getD 0 : Int) : Rat)) /
+           (((r.timestamp.getD 0 : Int) : Rat) - ((l.timestamp.getD 0 : Int) : Rat)) * (rv - lv))
+       | _, _ => none) ∧
+    interpDistanceRaw (sortByKey g) idx t = distAt l idx := by
+  obtain ⟨hs, hu⟩ := sorted_facts g hd
+  have hne : ∀ m ∈ sortByKey g, m.key ≠ keyOfRat t := fun m hm => hnone m ((mem_sortByKey g m).mp hm)
+  have herr := search_err (sortByKey g) (keyOfRat t) hne
+  have hb := sorted_bracket MatrixData.key (sortByKey g) hs (keyOfRat t) _ rfl
+  generalize hi : ((sortByKey g).filter (fun x => decide (x.key < keyOfRat t))).length = i at herr hb
+  have hlS : l ∈ sortByKey g := (mem_sortByKey g l).mpr hl
+  have hrS : r ∈ sortByKey g := (mem_sortByKey g r).mpr hr
+  have h0 : i ≠ 0 := fun e => (hb.2.2.2.mp e) l hlS hlk
+  have hlen : i ≠ (sortByKey g).length := fun e => by
+    have := (hb.2.2.1.mp e) r hrS; omega
+  have hile : i ≤ (sortByKey g).length := by rw [← hi]; exact List.length_filter_le _ _
+  obtain ⟨l', hl'get, hl'S, hl'k, hl'max⟩ := hb.2.1 (by omega)
+  have hll : l' = l := hu l' hl'S l hlS (by
+    have := hl'max l hlS hlk
+    have := hmax l' ((mem_sortByKey g l').mp hl'S) hl'k
+    omega)
+  obtain ⟨r', hr'get⟩ : ∃ r', (sortByKey g)[i]? = some r' := by
+    have : i < (sortByKey g).length := by omega
+    exact ⟨(sortByKey g)[i], List.getElem?_eq_getElem this⟩
+  obtain ⟨hr'S, hr'k, hr'min⟩ := hb.1 r' hr'get
+  have hr'gt : keyOfRat t < r'.key := by
+    have := hne r' hr'S; omega
+  have hrr : r' = r := hu r' hr'S r hrS (by
+    have := hr'min r hrS (by omega)
+    have := hmin r' ((mem_sortByKey g r').mp hr'S) hr'gt
+    omega)
+  rw [hll] at hl'get
+  rw [hrr] at hr'get
+  exact ⟨interpDurationRaw_err_mid _ _ _ i h0 hlen l r hl'get hr'get herr,
+         interpDistanceRaw_err_mid _ _ _ i h0 hlen l hl'get herr⟩
+
+end selection
 
 end C16
